@@ -10,7 +10,6 @@ import (
 	"golang.org/x/tools/go/ssa"
 )
 
-func registerHeapModels() {}
 
 // ---------- cryptography: uninterpreted functions + named axioms ----------
 //
